@@ -2,6 +2,7 @@ package props
 
 import (
 	"fmt"
+	"io"
 	"reflect"
 	"runtime"
 	"sync"
@@ -28,6 +29,30 @@ type c19Pair struct {
 	t     reflect.Type
 	v     reflect.Value
 	bytes [3][]byte // sequential encoding per codec
+}
+
+// c19Reader delivers at most n bytes per Read and touches no state outside
+// itself (the shared chunking readers of package mon bump a global progress
+// tick for the hang monitor, which would be the harness' own data race here).
+type c19Reader struct {
+	data []byte
+	n    int
+}
+
+func (r *c19Reader) Read(p []byte) (int, error) {
+	if len(r.data) == 0 {
+		return 0, io.EOF
+	}
+	n := r.n
+	if n > len(p) {
+		n = len(p)
+	}
+	if n > len(r.data) {
+		n = len(r.data)
+	}
+	copy(p, r.data[:n])
+	r.data = r.data[n:]
+	return n, nil
 }
 
 type c19Result struct {
@@ -114,6 +139,39 @@ func c19Round(c *run.C) {
 				results[g] = []c19Result{{err: "NewUnfolder: " + err.Error()}}
 				return
 			}
+			if g%3 == 1 {
+				u.EnableKeyCache([]int{0, 1, 2, 8, 64}[g%5])
+			}
+			// every entry point of the codec is some goroutine's way of parsing
+			parse := func(buf []byte, v structform.Visitor) error {
+				switch (g / 3) % 5 {
+				case 0:
+					return cd.Parse(buf, v)
+				case 1:
+					return cd.ParseString(string(buf), v)
+				case 2:
+					_, err := cd.ParseReader(&c19Reader{data: buf, n: 1 + g%7}, v)
+					return err
+				case 3:
+					d := cd.NewBytesDecoder(buf, v)
+					if err := d.Next(); err != nil {
+						return err
+					}
+					if err := d.Next(); err != io.EOF {
+						return fmt.Errorf("bytes decoder: second Next returned %v, want io.EOF", err)
+					}
+					return nil
+				default:
+					d := cd.NewDecoder(&c19Reader{data: buf, n: 2 + g%5}, []int{1, 16, 4096}[g%3], v)
+					if err := d.Next(); err != nil {
+						return err
+					}
+					if err := d.Next(); err != io.EOF {
+						return fmt.Errorf("decoder: second Next returned %v, want io.EOF", err)
+					}
+					return nil
+				}
+			}
 			start.Wait()
 			for round := 0; round < 2; round++ {
 				perm := make([]int, len(pairs))
@@ -150,7 +208,7 @@ func c19Round(c *run.C) {
 							res.err = "SetTarget: " + err.Error()
 							return
 						}
-						if err := cd.Parse(mine, u); err != nil {
+						if err := parse(mine, u); err != nil {
 							res.err = "parse+unfold: " + err.Error()
 							return
 						}
@@ -166,7 +224,7 @@ func c19Round(c *run.C) {
 						// transcode the shared bytes into another format with own parser+encoder
 						dst := codec.All[(g+1)%3]
 						var tw mon.CountingWriter
-						if err := cd.Parse(mine, dst.NewVisitor(&tw, codec.JSONOpts{IgnoreInvalidFloat: true})); err != nil {
+						if err := parse(mine, dst.NewVisitor(&tw, codec.JSONOpts{IgnoreInvalidFloat: true})); err != nil {
 							res.err = "transcode: " + err.Error()
 							return
 						}
@@ -253,7 +311,7 @@ func init() {
 		ID:    "C19",
 		Level: "exploration",
 		Rule: "race-detector build. One case = one round: G in {4,16,64} goroutines released by a barrier under GOMAXPROCS in {2,16}; each owns an Iterator, an Unfolder, encoders and parsers (codec and JSON options differ per goroutine) and runs, twice in a private random order, " +
-			"fold -> own encoder, parse(shared bytes) -> own unfolder, and parser -> encoder transcoding over 5 SHARED (type, value) pairs whose struct types are created by reflect.StructOf for this round (first use = reflection-based compilation of folder and unfolder in every goroutine at once; second pass = cached use). " +
+			"fold -> own encoder, parse(own bytes; entry point per goroutine: Parse, ParseString, ParseReader, bytes decoder, reader decoder) -> own unfolder (every third with a key cache of capacity 0..64; Reset before half of the SetTarget calls), and parser -> encoder transcoding over 5 SHARED (type, value) pairs whose struct types are created by reflect.StructOf for this round (first use = reflection-based compilation of folder and unfolder in every goroutine at once; second pass = cached use). " +
 			"A yielding visitor calls runtime.Gosched() at goroutine-specific event indices. Oracles: (1) zero 'WARNING: DATA RACE' blocks in the race log of every worker (each block, de-duplicated by its first two library frames, is a violation and its own replay artefact); " +
 			"(2) every goroutine's unfolded value, encoding and transcoding equal the sequential pre-computation. distinct_nontrivial = distinct interleavings observed, identified by the order of goroutine ids among the first 64 monitored events of the round (one atomic counter).",
 		Assumptions: []string{
